@@ -16,6 +16,7 @@ Observation point: ``Grid.bounds`` (radians, ``[[lat_min, lat_max], [lon_min, lo
 
 from __future__ import annotations
 
+import json
 import math
 
 import numpy as np
@@ -274,15 +275,23 @@ def classify(face, kind):
     n = len(P)
     ref_in = all(float(np.cross(P[i], P[(i + 1) % n])[0]) > 0 for i in range(n))     # (1,0,0) inside
     on_ref = any(abs(math.sin(math.radians(c[0]))) < 1e-9 and math.cos(math.radians(c[0])) > 0 and not is_pole_corner(c) for c in face)
+    # does the boundary cross the reference half-meridian (longitude 0, the arc pole -> (1,0,0) -> pole)?
+    crosses = False
+    for i in range(n):
+        a, b = P[i], P[(i + 1) % n]
+        if a[1] * b[1] <= 0 and not (a[1] == 0 and b[1] == 0):
+            t = a[1] / (a[1] - b[1])
+            if a[0] + t * (b[0] - a[0]) > 0:
+                crosses = True
     return dict(pole_corner=pc, enclosed=(not pc and (mn > POLE_MARGIN or ms > POLE_MARGIN)), loc=loc,
-                ref_inside=ref_in, corner_on_ref_meridian=on_ref, kind=kind)
+                ref_inside=ref_in, corner_on_ref_meridian=on_ref, crosses_ref_meridian=crosses, kind=kind)
 
 
 def signature(cl, fails, box):
     full = abs(box[1][0]) <= TOL and abs(box[1][1] - TWO_PI) <= TOL
     reports_pole = full and (abs(box[0][1] - math.pi / 2) <= TOL or abs(box[0][0] + math.pi / 2) <= TOL)
     if reports_pole and not cl["enclosed"] and not cl["pole_corner"]:
-        return f"C13/false-pole/{cl['loc']}/" + ("ref-inside" if cl["ref_inside"] else "ref-outside")
+        return f"C13/false-pole/{cl['loc']}/" + ("crosses-ref-meridian" if cl["crosses_ref_meridian"] else "other")
     if "enclosed_pole" in fails:
         return "C13/pole-missed/" + ("corner-on-ref-meridian" if cl["corner_on_ref_meridian"] else "other")
     branch = "pole-corner" if cl["pole_corner"] else "pole-enclosed" if cl["enclosed"] else "normal-face"
@@ -298,7 +307,7 @@ def judge(ctx, face, kind, obs):
     cl = classify(face, kind)
     inp = dict(face=[list(c) for c in face], kind=kind, classes=cl)
     key = tuple(map(tuple, face))
-    for t in ("pole_corner", "enclosed", "ref_inside", "corner_on_ref_meridian"):
+    for t in ("pole_corner", "enclosed", "ref_inside", "corner_on_ref_meridian", "crosses_ref_meridian"):
         if cl[t]:
             ctx.hit(t)
     ctx.hit("kind=" + kind)
@@ -378,7 +387,12 @@ def run(ctx):
         "tolerance 1e-9 rad for enclosure, attainment and model/implementation agreement",
     ]
     rng = ctx.rng
-    items = [gen_face(rng) for _ in range(ctx.n(420, 4000))]
+    corpus = []
+    for f in sorted((common.CORPUS / "C13").glob("*.json")):
+        j = json.loads(f.read_text())
+        corpus.append(([tuple(map(float, c)) for c in j["face"]], j.get("kind", "corpus")))
+    run_faces(ctx, corpus)
+    items = [gen_face(rng) for _ in range(ctx.n(1500, 60000))]
     run_faces(ctx, items)
 
 
